@@ -140,8 +140,9 @@ Proof.
       destruct (negb ok); cbn [fst]; [unfold nm_eq in *; lia|].
       destruct (create_mailbox_row s0 (cb :: rb) t) as [[s1 nid]|] eqn:C; cbn [fst]; [|unfold nm_eq in *; lia].
       apply create_row_nm in C.
-      destruct (reparent (set_next s1 nid (mb_next m)) (mb_id m) nid) eqn:R; cbn [fst].
-      * apply reparent_nm in R. unfold nm_eq in *. simpl in R. lia.
+      match goal with |- context [reparent (set_next s1 nid ?x) (mb_id m) nid] => set (nx := x) end.
+      destruct (reparent (set_next s1 nid nx) (mb_id m) nid) eqn:R; cbn [fst].
+      * apply reparent_nm in R. unfold nm_eq in *. cbn [next_msg set_next set_mboxes] in R. lia.
       * unfold nm_eq in *. lia.
     + destruct (find_name s (ca :: ra)); cbn [fst]; [|lia]. destruct (find_name s (cb :: rb)); cbn [fst]; [lia|].
       pose proof (create_parents_nm s (cb :: rb) t) as H1.
